@@ -209,6 +209,9 @@ class DataTransformBlock(ConfigBlock):
 
     @property
     def tree(self):
+        if not self.steps and not self.termination:
+            # an empty block, e.g. `metadata { }`, has no data_transform group at all
+            return Tree(self.__name__, [])
         return Tree(
             self.__name__,
             [
